@@ -1,7 +1,8 @@
 (* C11 I/O fault containment. Statements only.
    Three of the faults below used to be REFUTED by the faithful model; the code was repaired
    (F9: commit e3d3ed5, F15: commit 20e4a83, F1: commit 62103db) and the model (Storage/Fault.v) follows it. *)
-Require Import Pearl.Base.Prelude Pearl.Storage.Model Pearl.Storage.Spec Pearl.Storage.Inv Pearl.Storage.Theorems
+Require Import Pearl.Base.Prelude Pearl.Storage.Model Pearl.Storage.Spec Pearl.Storage.Inv Pearl.Storage.InvProofs
+               Pearl.Storage.NoHarmProofs Pearl.Storage.Theorems Pearl.Storage.Cancel Pearl.Storage.CancelProofs
                Pearl.Storage.Fault Pearl.Storage.FaultProofs.
 
 Require Pearl.Generated.Facts.
@@ -81,6 +82,229 @@ Theorem C11_rotation_failure_keeps_going :
   get_latest_entry (fst (step_q 4 f_cfg s (OWrite 3 7 None 8 5 3))) 3 None = Found (mk_rec 3 7 false None 8 5 3).
 Proof. exact rotation_failure_keeps_going. Qed.
 
+(* ================= one failed file operation inside a client call =================
+
+   `fault_outcomes K cfg s o s'` (Storage/Fault.v): the states one failed file operation (create, open, write,
+   partial write, sync) inside the public operation `o` started in `s` may leave, read off the repaired code.
+   It is the union of
+     fault_error K s o s'       the call returned an error
+                                (write: `burn_id s` when the creation of the active blob failed, `ensure_active s`
+                                 when the record append failed; delete: the same for the marker in the active
+                                 blob; close_active: `s`; restore_active: `s` or the last closed blob with its
+                                 index loaded; create_active: `burn_id s`; reads: `s`)
+     fault_logged K cfg s o s'  the failure was logged and the call returned Ok
+                                (the completed operation when the failed file operation was not essential, e.g. the
+                                 background sync; delete: `delete_faulty`, the marker append failed in any subset
+                                 `fails` of the closed blobs -- those keep their index loaded and get no marker,
+                                 the others are processed normally; the dump is requested iff one was marked).
+   NOT expressible at this level (whole records only): the torn bytes a SHORT write leaves behind the last
+   record -- finding F21; see C05/C12 for what the next start makes of them. *)
+
+(* every fault outcome is a state a dropped future (C14: cancel_outcomes) may leave, possibly followed by the
+   request for the deferred index dump. The literal inclusion is FALSE for a partially failed delete that marked
+   some blob (a dropped delete has not requested the dump yet): C11_fault_example_not_a_cancel_outcome below. *)
+Theorem C11_fault_is_a_cancel_outcome :
+  forall (K : N) (cfg : config) (s : storage) (o : op) (s' : storage),
+    fault_outcomes K cfg s o s' ->
+    exists s1, cancel_outcomes K cfg s o s1 /\ (s' = s1 \/ s' = request_dump s1).
+Proof. exact fault_outcomes_are_cancel_outcomes. Qed.
+
+(* literally so when the call returned an error, for every operation that is not a delete, and for a delete that
+   marked no closed blob *)
+Theorem C11_fault_error_is_a_cancel_outcome :
+  forall (K : N) (cfg : config) (s : storage) (o : op) (s' : storage),
+    fault_error K s o s' -> cancel_outcomes K cfg s o s'.
+Proof. exact fault_error_is_cancel_outcome. Qed.
+Theorem C11_fault_is_a_cancel_outcome_strict :
+  forall (K : N) (cfg : config) (s : storage) (o : op) (s' : storage),
+    is_delete o = false -> fault_outcomes K cfg s o s' -> cancel_outcomes K cfg s o s'.
+Proof. exact fault_outcomes_are_cancel_outcomes_strict. Qed.
+Theorem C11_failed_delete_is_a_cancel_outcome :
+  forall (K : N) (cfg : config) (s : storage) (k ts : N) (meta : option N) (msize : N) (oip : bool) (fails : list bool),
+    s_open s = true -> delete_faulty_marked K s (mk_rec k ts true meta msize 0 0) oip fails = 0 ->
+    cancel_outcomes K cfg s (ODelete k ts meta msize oip) (delete_faulty K s (mk_rec k ts true meta msize 0 0) oip fails).
+Proof. exact failed_delete_is_cancel_outcome. Qed.
+
+(* (A) "every record acknowledged earlier remains readable with correct bytes": no key other than the one of the
+   failed call is affected -- same records in the log, same answer to every read *)
+Theorem C11_fault_other_keys :
+  forall (K : N) (cfg : config) (s : storage) (o : op) (s' : storage) (k : N),
+    BlobsOk K s -> s_open s = true -> fault_outcomes K cfg s o s' -> op_key o <> Some k ->
+    of_key k (abs s') = of_key k (abs s) /\
+    forall meta, get_latest_entry s' k meta = get_latest_entry s k meta.
+Proof. exact fault_other_keys. Qed.
+
+(* (B) nothing stored is harmed: every blob keeps its id and its records are a prefix of its new records *)
+Theorem C11_fault_no_harm :
+  forall (K : N) (cfg : config) (s : storage) (o : op) (s' : storage),
+    BlobsOk K s -> s_open s = true -> fault_outcomes K cfg s o s' -> good s s'.
+Proof. exact fault_no_harm. Qed.
+
+(* (C) "once the fault clears the storage accepts further operations and keeps rotating blobs": the active index
+   stays in memory, the worker lives, the ids stay fresh, the storage is open *)
+Theorem C11_fault_later_ops :
+  forall (K : N) (cfg : config) (s : storage) (o : op) (s' : storage),
+    BlobsOk K s -> s_open s = true -> fault_outcomes K cfg s o s' ->
+    (ActiveInMemory s -> ActiveInMemory s') /\ s_alive s' = s_alive s /\ (IdsOk s -> IdsOk s') /\ s_open s' = true.
+Proof. exact fault_later_ops. Qed.
+
+(* ... hence a write on the resulting state is acknowledged *)
+Theorem C11_after_fault_write_acknowledged :
+  forall (K : N) (cfg : config) (s : storage) (o : op) (s' : storage) (k ts : N) (meta : option N) (msize dlen dseed : N),
+    BlobsOk K s -> ActiveInMemory s -> s_open s = true -> fault_outcomes K cfg s o s' ->
+    snd (step K cfg s' (OWrite k ts meta msize dlen dseed)) = RUnit.
+Proof. exact fault_then_write_acknowledged. Qed.
+
+(* STRONGER than cancellation. "An operation that returned an error is never served later as if it had
+   succeeded": the failed write left the log and EVERY read (of its own key too) as they were, in every state *)
+Theorem C11_failed_write_leaves_no_trace :
+  forall (K : N) (s : storage) (k ts : N) (meta : option N) (msize dlen dseed : N) (s' : storage),
+    fault_error K s (OWrite k ts meta msize dlen dseed) s' ->
+    abs s' = abs s /\ forall k' meta', get_latest_entry s' k' meta' = get_latest_entry s k' meta'.
+Proof. exact failed_write_leaves_no_trace. Qed.
+
+(* the same for every call that returned an error *)
+Theorem C11_failed_call_leaves_no_trace :
+  forall (K : N) (s : storage) (o : op) (s' : storage),
+    BlobsOk K s -> fault_error K s o s' ->
+    abs s' = abs s /\ forall k meta, get_latest_entry s' k meta = get_latest_entry s k meta.
+Proof. exact fault_error_leaves_no_trace. Qed.
+
+(* a partially failed delete, blob by blob: every closed blob got its marker and indexed it (or does not hold the
+   key), or it is the blob it was with its index loaded; the active blob is fully processed *)
+Theorem C11_failed_delete_markers :
+  forall (K : N) (s : storage) (k ts : N) (meta : option N) (msize : N) (oip : bool) (fails : list bool),
+    let mk := mk_rec k ts true meta msize 0 0 in
+    let s' := delete_faulty K s mk oip fails in
+    Forall2 (orel (fun b b' => b' = fst (fst (blob_delete K b mk true)) \/
+                               (delete_applies b mk true = true /\ b' = blob_load_index K b)))
+            (s_closed (delete_start s oip)) (s_closed s') /\
+    s_active s' = option_map (fun b => fst (fst (blob_delete K b mk oip))) (s_active (delete_start s oip)).
+Proof. exact failed_delete_markers. Qed.
+
+(* the log: the old blobs, each with or without ONE marker at its end *)
+Theorem C11_failed_delete_log :
+  forall (K : N) (cfg : config) (s : storage) (k ts : N) (meta : option N) (msize : N) (oip : bool) (s' : storage),
+    BlobsOk K s -> s_open s = true -> fault_outcomes K cfg s (ODelete k ts meta msize oip) s' ->
+    exists s0, (s0 = s \/ (oip = false /\ s0 = ensure_active s)) /\
+      Forall2 (orel (marker_ext (mk_rec k ts true meta msize 0 0) true)) (s_closed s0) (s_closed s') /\
+      orel (marker_ext (mk_rec k ts true meta msize 0 0) oip) (s_active s0) (s_active s').
+Proof. exact failed_delete_log. Qed.
+
+(* the read of the key: as before the delete, or as after the completed delete (both occur: the examples below) *)
+Theorem C11_failed_delete_read :
+  forall (K : N) (cfg : config) (s : storage) (k ts : N) (meta : option N) (msize : N) (oip : bool) (s' : storage),
+    BlobsOk K s -> s_open s = true -> fault_outcomes K cfg s (ODelete k ts meta msize oip) s' ->
+    forall meta',
+      get_latest_entry s' k meta' = get_latest_entry s k meta' \/
+      get_latest_entry s' k meta' = get_latest_entry (fst (step K cfg s (ODelete k ts meta msize oip))) k meta'.
+Proof. exact failed_delete_read. Qed.
+
+(* the model is the completed delete when nothing fails *)
+Theorem C11_delete_without_failure :
+  forall (K : N) (s : storage) (k ts : N) (meta : option N) (msize : N) (oip : bool),
+    let s' := delete_faulty K s (mk_rec k ts true meta msize 0 0) oip [] in
+    s_closed s' = s_closed (fst (do_delete K s k ts meta msize oip)) /\
+    s_active s' = s_active (fst (do_delete K s k ts meta msize oip)).
+Proof. exact delete_faulty_no_failure. Qed.
+
+(* STRONGER than cancellation: a fault leaves NO blob with bytes that are not indexed -- the index of every blob is
+   the index of its records and every index file describes a prefix of its blob (a dropped future may break this:
+   Cancel.v ds_bytes, wp_bytes) ... *)
+Theorem C11_fault_keeps_invariant :
+  forall (K : N) (cfg : config) (s : storage) (o : op) (s' : storage),
+    BlobsOk K s -> ActiveInMemory s -> fault_outcomes K cfg s o s' -> BlobsOk K s'.
+Proof. exact fault_keeps_BlobsOk. Qed.
+
+(* ... for a delete whatever the place of the active index ... *)
+Theorem C11_failed_delete_keeps_invariant :
+  forall (K : N) (cfg : config) (s : storage) (k ts : N) (meta : option N) (msize : N) (oip : bool) (s' : storage),
+    BlobsOk K s -> fault_outcomes K cfg s (ODelete k ts meta msize oip) s' -> BlobsOk K s'.
+Proof. exact failed_delete_keeps_BlobsOk. Qed.
+
+(* ... and the whole invariant of C03 *)
+Theorem C11_fault_keeps_whole_invariant :
+  forall (K : N) (cfg : config) (s : storage) (o : op) (s' : storage),
+    Inv K s -> ActiveInMemory s -> s_open s = true -> fault_outcomes K cfg s o s' -> Inv K s' /\ ActiveInMemory s'.
+Proof. exact fault_keeps_Inv. Qed.
+
+(* all of it after every history *)
+Theorem C11_fault_containment :
+  forall (K : N) (cfg : config) (ops : list op) (o : op) (s' : storage),
+    s_open (reach K cfg ops) = true -> fault_outcomes K cfg (reach K cfg ops) o s' ->
+    (forall k, op_key o <> Some k ->
+       of_key k (abs s') = of_key k (abs (reach K cfg ops)) /\
+       forall meta, get_latest_entry s' k meta = get_latest_entry (reach K cfg ops) k meta) /\
+    good (reach K cfg ops) s' /\
+    Inv K s' /\ ActiveInMemory s' /\ s_alive s' = s_alive (reach K cfg ops) /\ s_open s' = true /\
+    forall k ts meta msize dlen dseed, snd (step K cfg s' (OWrite k ts meta msize dlen dseed)) = RUnit.
+Proof. exact reach_fault_containment. Qed.
+
+(* the background faults (failed index dump, failed blob creation during a rotation, failed background sync),
+   together: log, reads, worker and invariant as before *)
+Theorem C11_background_fault_contained :
+  forall (K : N) (s s' : storage),
+    bg_fault_outcomes s s' ->
+    abs s' = abs s /\ (forall k meta, get_latest_entry s' k meta = get_latest_entry s k meta) /\
+    s_alive s' = s_alive s /\ s_open s' = s_open s /\ (Inv K s -> Inv K s') /\ (ActiveInMemory s -> ActiveInMemory s').
+Proof. exact bg_fault_contained. Qed.
+
+(* ---- computed: a delete over two closed blobs, the marker append fails in the first ----
+   fd_state: blob 0 (closed, dumped) holds key 1 at timestamp 7 and key 2, blob 1 (closed, dumped) holds key 1 at
+   timestamp 8; fd_op = delete(key 1, timestamp 9, only_if_presented); fd_out = delete_faulty .. [true; false] *)
+Example C11_fault_example_is_an_outcome : fault_outcomes 4 f_cfg fd_state fd_op fd_out.
+Proof. exact fd_out_is_fault_outcome. Qed.
+
+(* blob 0: index loaded, no marker; blob 1: marker appended and indexed; the call answers Ok(1) (the completed
+   delete: Ok(2)); the dump is requested; with no failure the model computes the completed delete *)
+Example C11_fault_example_blobs :
+  s_closed fd_out =
+    match s_closed fd_state with
+    | [Some b0; Some b1] => [Some (blob_load_index 4 b0); Some (fst (blob_append (blob_load_index 4 b1) fd_mk))]
+    | l => l
+    end /\
+  map (fun b => length (b_recs b)) (blobs_in_order fd_state) = [2; 1]%nat /\
+  map (fun b => length (b_recs b)) (blobs_in_order fd_out) = [2; 2]%nat /\
+  map (fun b => length (b_recs b)) (blobs_in_order (fst (step 4 f_cfg fd_state fd_op))) = [3; 2]%nat /\
+  delete_faulty_answer 4 fd_state fd_mk true [true; false] = RNum 1 /\
+  snd (step 4 f_cfg fd_state fd_op) = RNum 2 /\
+  s_dump_req fd_state = false /\ s_dump_req fd_out = true /\
+  delete_faulty 4 fd_state fd_mk true [] = fst (step 4 f_cfg fd_state fd_op).
+Proof. vm_compute. repeat split; reflexivity. Qed.
+
+(* the key of the call reads as AFTER the completed delete (Deleted 9: the newer blob got its marker), the other key
+   is unchanged, the read agrees with the specification's read of the log, the next write is acknowledged *)
+Example C11_fault_example_reads :
+  get_latest_entry fd_state 1 None = Found (mk_rec 1 8 false None 8 5 3) /\
+  get_latest_entry fd_out 1 None = Deleted 9 /\
+  get_latest_entry (fst (step 4 f_cfg fd_state fd_op)) 1 None = Deleted 9 /\
+  get_latest_entry fd_out 2 None = Found (mk_rec 2 7 false None 8 5 2) /\
+  get_latest_entry fd_state 2 None = Found (mk_rec 2 7 false None 8 5 2) /\
+  of_key 2 (abs fd_out) = of_key 2 (abs fd_state) /\
+  get_latest_entry fd_out 1 None = spec_read (abs fd_out) 1 /\
+  snd (step 4 f_cfg fd_out (OWrite 3 7 None 8 5 4)) = RUnit.
+Proof. vm_compute. repeat split; reflexivity. Qed.
+
+Example C11_fault_example_invariant : Inv 4 fd_out /\ ActiveInMemory fd_out.
+Proof. exact fd_out_invariant. Qed.
+
+(* fd_out is not literally a cancel outcome: it carries the dump request *)
+Example C11_fault_example_not_a_cancel_outcome : ~ cancel_outcomes 4 f_cfg fd_state fd_op fd_out.
+Proof. exact fd_out_is_not_a_cancel_outcome. Qed.
+
+(* the other alternative of C11_failed_delete_read, computed on the state of C14 (key 1 at timestamps 7 and 8 in two
+   closed blobs, delete at timestamp 8), the marker append failing in the NEWER blob: the call answers Ok(1), the
+   marker is in the log, and the key still reads as BEFORE the delete (equal timestamps: the marker of the older
+   blob does not replace the record of the newer one); the completed delete answers Deleted 8 *)
+Example C11_fault_example_reads_as_before :
+  fault_outcomes 4 c_cfg d_state d_op fd2_out /\
+  delete_faulty_answer 4 d_state d_mk true [false; true] = RNum 1 /\
+  In d_mk (abs fd2_out) /\
+  get_latest_entry d_state 1 None = Found (mk_rec 1 8 false None 8 5 2) /\
+  get_latest_entry fd2_out 1 None = Found (mk_rec 1 8 false None 8 5 2) /\
+  get_latest_entry (fst (step 4 c_cfg d_state d_op)) 1 None = Deleted 8.
+Proof. exact (conj fd2_out_is_fault_outcome fd2_out_reads). Qed.
+
 (* ---- structural facts re-extracted from the Rust source on every run (tools/extract_src.py, Generated/Facts.v):
    the orderings inside the code that the models used above assume. A change of the code that invalidates one turns
    the generated boolean into `false` and this file no longer compiles. ---- *)
@@ -111,3 +335,28 @@ Print Assumptions C11_source_close_syncs_before_take.
 Print Assumptions C11_source_dump_puts_headers_back.
 Print Assumptions C11_source_background_failures_logged.
 Print Assumptions C11_source_append_resyncs_size.
+Print Assumptions C11_fault_is_a_cancel_outcome.
+Print Assumptions C11_fault_error_is_a_cancel_outcome.
+Print Assumptions C11_fault_is_a_cancel_outcome_strict.
+Print Assumptions C11_failed_delete_is_a_cancel_outcome.
+Print Assumptions C11_fault_other_keys.
+Print Assumptions C11_fault_no_harm.
+Print Assumptions C11_fault_later_ops.
+Print Assumptions C11_after_fault_write_acknowledged.
+Print Assumptions C11_failed_write_leaves_no_trace.
+Print Assumptions C11_failed_call_leaves_no_trace.
+Print Assumptions C11_failed_delete_markers.
+Print Assumptions C11_failed_delete_log.
+Print Assumptions C11_failed_delete_read.
+Print Assumptions C11_delete_without_failure.
+Print Assumptions C11_fault_keeps_invariant.
+Print Assumptions C11_failed_delete_keeps_invariant.
+Print Assumptions C11_fault_keeps_whole_invariant.
+Print Assumptions C11_fault_containment.
+Print Assumptions C11_background_fault_contained.
+Print Assumptions C11_fault_example_is_an_outcome.
+Print Assumptions C11_fault_example_blobs.
+Print Assumptions C11_fault_example_reads.
+Print Assumptions C11_fault_example_invariant.
+Print Assumptions C11_fault_example_not_a_cancel_outcome.
+Print Assumptions C11_fault_example_reads_as_before.
